@@ -10,7 +10,8 @@ SYSTEM_FLAGS = ['\\Seen', '\\Answered', '\\Flagged', '\\Deleted', '\\Draft']
 USER = {'name': 'user', 'password': 'pass'}
 USER2 = {'name': 'other', 'password': 'secret2'}
 
-BUGGIFY_KINDS = ['lock_yield', 'drain_yield', 'weakset', 'lock_stall']
+BUGGIFY_KINDS = ['lock_yield', 'drain_yield', 'weakset', 'lock_stall',
+                 'timer_ties']
 
 
 def pick_buggify(rng: random.Random, kinds=BUGGIFY_KINDS) -> list[str]:
